@@ -21,6 +21,43 @@ pub assume_specification<T, A, F> [Vec::<T, A>::retain] (v: &mut Vec<T, A>, f: F
         && (forall|i: int| 0 <= i < old(v).len() ==> call_ensures(f, (&#[trigger] old(v)@[i],), pred(old(v)@[i])));
 
 
+
+// verified stand-in for `vec.into_iter().filter(f).collect()` with the exact filter semantics (rule R-fcollect;
+// vstd's native adapter specs give membership but not completeness)
+pub open spec fn filtered<T>(o: Seq<T>, n: Seq<T>, pred: spec_fn(T) -> bool) -> bool { n == o.filter(pred) }
+pub open spec fn pred_of<T, F: Fn(&T) -> bool>(f: F) -> spec_fn(T) -> bool { |x: T| call_ensures(f, (&x,), true) }
+pub fn vx_filter_collect<T: Copy, F: Fn(&T) -> bool>(v: Vec<T>, f: F) -> (r: Vec<T>)
+    requires forall|x: T| call_requires(f, (&x,)),
+        forall|x: T, b1: bool, b2: bool| call_ensures(f, (&x,), b1) && call_ensures(f, (&x,), b2) ==> b1 == b2,
+    ensures exists|pred: spec_fn(T) -> bool| #[trigger] filtered(v@, r@, pred)
+        && (forall|i: int| 0 <= i < v@.len() ==> call_ensures(f, (&#[trigger] v@[i],), pred(v@[i]))),
+{
+    let mut out: Vec<T> = Vec::new();
+    let mut i: usize = 0;
+    assert(v@.take(0) =~= Seq::<T>::empty());
+    while i < v.len()
+        invariant i <= v.len(), out@ == v@.take(i as int).filter(pred_of(f)),
+            forall|j: int| 0 <= j < i ==> call_ensures(f, (&#[trigger] v@[j],), pred_of(f)(v@[j])),
+            forall|x: T| call_requires(f, (&x,)),
+            forall|x: T, b1: bool, b2: bool| call_ensures(f, (&x,), b1) && call_ensures(f, (&x,), b2) ==> b1 == b2,
+        decreases v.len() - i,
+    {
+        let x = v[i];
+        let keep = f(&x);
+        proof {
+            reveal_with_fuel(Seq::filter, 2);
+            assert(v@.take(i as int + 1) =~= v@.take(i as int).push(x));
+            assert(v@.take(i as int).push(x).drop_last() =~= v@.take(i as int));
+            assert(pred_of(f)(x) == keep);
+        }
+        if keep { out.push(x); }
+        i += 1;
+    }
+    assert(v@.take(v.len() as int) =~= v@);
+    assert(filtered(v@, out@, pred_of(f)));
+    out
+}
+
 // ------------------------------------------------------------------ storage.rs items
 //@begin const src/storage.rs - EXPIRATION_TIME
 pub exec const EXPIRATION_TIME: Duration ensures dur_nanos(EXPIRATION_TIME) == 86_400_000_000_000 { Duration::from_secs(24 * 60 * 60) }
@@ -254,6 +291,21 @@ pub proof fn lemma_filter_ext<A>(s: Seq<A>, p: spec_fn(A) -> bool, q: spec_fn(A)
         assert forall|i: int| 0 <= i < d.len() implies p(#[trigger] d[i]) == q(d[i]) by { assert(d[i] == s[i]); }
         lemma_filter_ext(d, p, q);
         assert(p(s.last()) == q(s.last())) by { assert(s.last() == s[s.len() - 1]); }
+    }
+}
+/// filtering a duplicate-free sequence: membership is exact and the result is duplicate-free
+pub proof fn lemma_filter_members<A>(s: Seq<A>, p: spec_fn(A) -> bool)
+    requires forall|i: int, j: int| 0 <= i < j < s.len() ==> #[trigger] s[i] != #[trigger] s[j]
+    ensures forall|a: A| #[trigger] s.filter(p).contains(a) <==> (s.contains(a) && p(a)),
+        forall|i: int, j: int| 0 <= i < j < s.filter(p).len() ==> #[trigger] s.filter(p)[i] != #[trigger] s.filter(p)[j],
+{
+    let f = s.filter(p);
+    assert forall|a: A| #[trigger] f.contains(a) <==> (s.contains(a) && p(a)) by {
+        if f.contains(a) { let i = choose|i: int| 0 <= i < f.len() && f[i] == a; lemma_fsrc(s, p, i); }
+        if s.contains(a) && p(a) { let j = choose|j: int| 0 <= j < s.len() && s[j] == a; lemma_fdst(s, p, j); }
+    }
+    assert forall|i1: int, i2: int| 0 <= i1 < i2 < f.len() implies #[trigger] f[i1] != #[trigger] f[i2] by {
+        lemma_fsrc(s, p, i1); lemma_fsrc(s, p, i2); lemma_fsrc_mono(s, p, i1, i2);
     }
 }
 pub open spec fn live_at(now: int) -> spec_fn(ItemExpiration) -> bool { |e: ItemExpiration| !expired_at(e, now) }
@@ -497,6 +549,10 @@ pub fn vx_entry_push(m: &mut HashMap<InfoHash, Vec<AnnounceItem>>, k: InfoHash, 
     }
 }
 
+/// the addresses stored for an info-hash, in list order
+pub open spec fn items_of(s: AnnounceStorage, h: InfoHash) -> Seq<SocketAddr> {
+    if s.storage@.contains_key(h) { Seq::new(s.storage@[h]@.len(), |i: int| s.storage@[h]@[i].expiration.address) } else { Seq::<SocketAddr>::empty() }
+}
 /// the entries younger than 24 h at time `now` (24 h from the statement)
 pub open spec fn E0(s: AnnounceStorage, now: int) -> Seq<ItemExpiration> { s.expires@.filter(live_at(now)) }
 
@@ -850,6 +906,7 @@ impl AnnounceStorage {
         ensures final(self).wf(), final(self).expires@ == old(self).expires@.filter(live_at(clock())), // @C07.expiry_exactly_24h
             forall|a: SocketAddr| #[trigger] r@.contains(a) <==> e_has(final(self).expires@, (*info_hash, a)), // @C07.answers_exactly_the_live_pairs
             forall|i: int, j: int| 0 <= i < j < r@.len() ==> #[trigger] r@[i] != #[trigger] r@[j], // @C07.answers_distinct
+            r@ == items_of(*final(self), *info_hash),
     {
         self.find(info_hash, Instant::now())
     }
@@ -865,6 +922,7 @@ impl AnnounceStorage {
         ensures final(self).wf(), final(self).expires@ == old(self).expires@.filter(live_at(inst_nanos(curr_time))), // @C07.expiry_exactly_24h
             forall|a: SocketAddr| #[trigger] r@.contains(a) <==> e_has(final(self).expires@, (*info_hash, a)), // @C07.answers_exactly_the_live_pairs
             forall|i: int, j: int| 0 <= i < j < r@.len() ==> #[trigger] r@[i] != #[trigger] r@[j], // @C07.answers_distinct
+            r@ == items_of(*final(self), *info_hash),
     {
         broadcast use vstd::std_specs::hash::group_hash_axioms, infohash_key_model;
         // Clear out any old contacts that we have stored
@@ -877,6 +935,7 @@ impl AnnounceStorage {
         proof {
             let h = *info_hash;
             let m = self.storage@;
+            assert(r@ =~= items_of(*self, h));
             if m.contains_key(h) {
                 let l = m[h]@;
                 assert(l_ok(l, h));
